@@ -148,3 +148,332 @@ Proof.
     + intros FI I e. apply (scope_left FI I q vs f lhs c e Hc). apply collision_false, Col.
     + intros w Hw. apply scope_fv' in Hw. apply in_fv_bin. exact Hw.
 Qed.
+
+(* ============================================================================================
+   The rules that call Formula::substitute: its semantic theorem is a hypothesis of the section
+   (proved on the C17 branch; discharged by the integrator). *)
+Section WithSubst.
+Hypothesis subst_sem : forall F x t G, sort_ok x t = true -> substitute F x t = Some G ->
+  forall FI I e, csat FI I e G <-> csat FI I (upd e x (ev_g FI e t)) F.
+Hypothesis subst_fv : forall F x t G w, sort_ok x t = true -> substitute F x t = Some G ->
+  In w (free_variables G) -> (In w (free_variables F) /\ w <> x) \/ In w (gterm_vars t).
+Hypothesis subst_total : forall F x t, sort_ok x t = true -> exists G, substitute F x t = Some G.
+
+Lemma csat_quantify FI I e f q vs :
+  csat FI I e (quantify f q vs) <-> qsat q vs (fun e' => csat FI I e' f) e.
+Proof. destruct vs; cbn; tauto. Qed.
+
+Lemma total_ok (r : formula -> option formula) :
+  (forall F G, r F = Some G -> cequiv F G /\ fv_incl F G) -> rewrite_ok (total r).
+Proof.
+  intros H F. unfold total. destruct (r F) as [G|] eqn:E; [apply H, E|].
+  split; [apply cequiv_refl|apply fv_incl_refl].
+Qed.
+
+(* ------------------------------------------------------------ substitute_defined_variables *)
+Lemma def_candidate_some v x term d :
+  def_candidate v (x, term) = Some d -> d = term /\ x = var_to_gterm v /\ sort_ok v term = true.
+Proof.
+  unfold def_candidate. destruct v as [n s]. cbn [vname vsort].
+  destruct x as [| |c|y|[z|c|y|o t|o l r]|[sy|c|y]]; destruct term as [| |c'|y'|it'|st']; destruct s;
+    try discriminate;
+    (destruct (String.eqb_spec n y); cbn [andb]; [|discriminate]);
+    (match goal with |- (if negb ?b then _ else _) = _ -> _ => destruct b; cbn [negb]; [discriminate|] end);
+    intros [= <-]; subst; repeat split; reflexivity.
+Qed.
+
+Lemma find_definition_spec v f d :
+  find_definition v f = Some d ->
+  sort_ok v d = true /\
+  (forall FI I e, csat FI I e f -> getv e v = ev_g FI e d) /\
+  incl (gterm_vars d) (free_variables f).
+Proof.
+  revert d. induction f as [a|f IH|c l IHl r IHr|q vs f IH]; intros d; cbn [find_definition]; try discriminate.
+  - destruct a as [| |p ts|t gs]; try discriminate.
+    intros H. apply find_map_some in H. destruct H as [[x term] [Hin Hc]].
+    apply def_candidate_some in Hc. destruct Hc as [-> [-> Hs]].
+    unfold equal_pairs in Hin. cbn [fst snd] in Hin. apply in_flat_map in Hin.
+    destruct Hin as [[[l rel] rh] [Hi Hp]].
+    destruct rel; cbn in Hp; try contradiction.
+    pose proof (individuals_terms t gs l REq rh Hi) as [Hl Hr].
+    assert (Vl : incl (gterm_vars l) (free_variables (FAtomic (ACmp t gs)))).
+    { intros w Hw. cbn [free_variables]. apply in_aformula_vars_cmp.
+      destruct Hl as [->|[g [G1 ->]]]; [left; exact Hw|right; eauto]. }
+    assert (Vr : incl (gterm_vars rh) (free_variables (FAtomic (ACmp t gs)))).
+    { intros w Hw. cbn [free_variables]. apply in_aformula_vars_cmp.
+      destruct Hr as [g [G1 ->]]. right; eauto. }
+    assert (Sem : forall FI I e, csat FI I e (FAtomic (ACmp t gs)) -> ev_g FI e l = ev_g FI e rh).
+    { intros FI I e H. cbn in H. apply chain_individuals in H. rewrite Forall_forall in H.
+      specialize (H _ Hi). cbn in H. destruct (gval_eqb_spec (ev_g FI e l) (ev_g FI e rh)); congruence. }
+    destruct Hp as [E|[E|[]]]; inversion E; subst; clear E; (split; [exact Hs|split; [|assumption]]);
+      intros FI I e H; specialize (Sem FI I e H); rewrite ev_var_to_gterm in Sem; congruence.
+  - destruct c; try discriminate.
+    destruct (find_definition v l) as [d'|] eqn:El.
+    + intros [= <-]. destruct (IHl _ eq_refl) as [H1 [H2 H3]]. split; [exact H1|split].
+      * intros FI I e [Hl _]. apply (H2 FI I e Hl).
+      * intros w Hw. apply in_fv_bin. left. apply H3, Hw.
+    + intros H. destruct (IHr _ H) as [H1 [H2 H3]]. split; [exact H1|split].
+      * intros FI I e [_ Hr]. apply (H2 FI I e Hr).
+      * intros w Hw. apply in_fv_bin. right. apply H3, Hw.
+Qed.
+
+(* one step: exists block (f)  <->  exists block (f[v := d])  when f entails v = d and v is in the block *)
+Lemma define_step FI I block v d f f1 e :
+  In v block -> sort_ok v d = true ->
+  (forall e', csat FI I e' f -> getv e' v = ev_g FI e' d) ->
+  substitute f v d = Some f1 ->
+  qsat QExists block (fun e' => csat FI I e' f1) e <-> qsat QExists block (fun e' => csat FI I e' f) e.
+Proof.
+  intros Hv Hs Hd Hsub.
+  rewrite !qsat_exists_char by apply csat_ext. split.
+  - intros [e' [Ho H]]. rewrite (subst_sem _ _ _ _ Hs Hsub) in H.
+    exists (upd e' v (ev_g FI e' d)). split; [|exact H].
+    intros w Nw. rewrite getv_upd_other; [apply Ho, Nw|]. intros ->. apply Nw, Hv.
+  - intros [e' [Ho H]]. exists e'. split; [exact Ho|].
+    rewrite (subst_sem _ _ _ _ Hs Hsub). rewrite <- (Hd e' H).
+    apply (csat_ext FI I f _ _ (upd_getv e' v)). exact H.
+Qed.
+
+Lemma sdv_loop_ok block : forall vs f f',
+  (forall v, In v vs -> In v block) -> sdv_loop vs f = Some f' ->
+  (forall FI I e, qsat QExists block (fun e' => csat FI I e' f') e <->
+                  qsat QExists block (fun e' => csat FI I e' f) e)
+  /\ incl (free_variables f') (free_variables f).
+Proof.
+  induction vs as [|v vs IH]; intros f f' Hb; cbn [sdv_loop].
+  - intros [= <-]. split; [tauto|apply incl_refl].
+  - destruct (find_definition v f) as [d|] eqn:Ed.
+    + destruct (find_definition_spec _ _ _ Ed) as [Hs [Hd Hv]].
+      destruct (substitute f v d) as [f1|] eqn:Es; [|discriminate].
+      intros H. destruct (IH f1 f' (fun u Hu => Hb u (or_intror Hu)) H) as [H1 H2]. split.
+      * intros FI I e. rewrite H1. apply (define_step FI I block v d f f1 e); auto.
+        -- apply Hb; left; reflexivity.
+        -- intros e'. apply Hd.
+      * intros w Hw. apply H2 in Hw. destruct (subst_fv _ _ _ _ _ Hs Es Hw) as [[Hw' _]|Hw']; auto.
+    + intros H. apply (IH f f'); auto. intros u Hu. apply Hb. right; exact Hu.
+Qed.
+
+Lemma substitute_defined_variables_opt_ok F G :
+  substitute_defined_variables_opt F = Some G -> cequiv F G /\ fv_incl F G.
+Proof.
+  destruct F as [a|g|c l r|q vs f]; cbn [substitute_defined_variables_opt];
+    try (intros [= <-]; split; [apply cequiv_refl|apply fv_incl_refl]).
+  destruct q; try (intros [= <-]; split; [apply cequiv_refl|apply fv_incl_refl]).
+  destruct (sdv_loop (rev vs) f) as [f'|] eqn:E; [|discriminate]. intros [= <-].
+  destruct (sdv_loop_ok vs (rev vs) f f') as [H1 H2]; auto.
+  { intros v Hv. apply in_rev. exact Hv. }
+  split.
+  - intros FI I e. rewrite csat_quantify. cbn [csat]. apply H1.
+  - intros w Hw. apply in_fv_quantify in Hw. apply in_fv_q. destruct Hw as [Hw Nw]. split; auto.
+Qed.
+
+Theorem substitute_defined_variables_ok : rewrite_ok substitute_defined_variables.
+Proof. apply total_ok. exact substitute_defined_variables_opt_ok. Qed.
+
+(* the rule never panics *)
+Lemma sdv_loop_total : forall vs f, exists f', sdv_loop vs f = Some f'.
+Proof.
+  induction vs as [|v vs IH]; intros f; cbn [sdv_loop]; [eauto|].
+  destruct (find_definition v f) as [d|] eqn:Ed; [|apply IH].
+  destruct (find_definition_spec _ _ _ Ed) as [Hs _].
+  destruct (subst_total f v d Hs) as [f1 ->]. apply IH.
+Qed.
+Theorem substitute_defined_variables_total F : exists G, substitute_defined_variables_opt F = Some G.
+Proof.
+  destruct F as [a|g|c l r|q vs f]; cbn [substitute_defined_variables_opt]; eauto.
+  destruct q; eauto. destruct (sdv_loop_total (rev vs) f) as [f' ->]. eauto.
+Qed.
+
+
+(* -------------------------------------------------------------- simplify_transitive_equality *)
+Lemma gterm_to_var_some t v : gterm_to_var t = Some v -> t = var_to_gterm v.
+Proof.
+  destruct t as [| |c|y|[z|c|y|o t|o l r]|[sy|c|y]]; cbn; try discriminate; intros [= <-]; reflexivity.
+Qed.
+Lemma is_var_some vars t v : is_var vars t = Some v -> t = var_to_gterm v /\ In v vars.
+Proof.
+  unfold is_var. destruct (gterm_to_var t) as [u|] eqn:E; [|discriminate].
+  destruct (memb_spec var_dec u vars); [|discriminate]. intros [= <-].
+  split; [apply gterm_to_var_some, E|assumption].
+Qed.
+Lemma subsort_sort_ok k d : subsort k d = true -> sort_ok d (var_to_gterm k) = true.
+Proof. destruct k as [n []], d as [m []]; cbn; congruence. Qed.
+Lemma subsort_in_sort k d e : subsort k d = true -> in_sort (vsort d) (getv e k).
+Proof. destruct k as [n []], d as [m []]; cbn; try congruence; auto. Qed.
+
+Lemma te_result_spec v1 v2 c1 c2 k d dt :
+  te_result v1 v2 c1 c2 = Some (k, d, dt) ->
+  subsort k d = true /\ ((k = v1 /\ d = v2 /\ dt = c2) \/ (k = v2 /\ d = v1 /\ dt = c1)).
+Proof.
+  unfold te_result. destruct (subsort v1 v2) eqn:E1.
+  - intros [= <- <- <-]. auto.
+  - destruct (subsort v2 v1) eqn:E2; [|discriminate]. intros [= <- <- <-]. auto.
+Qed.
+
+Lemma transitive_equality_spec l1 r1 l2 r2 vars k d dt :
+  transitive_equality (l1, [mkguard REq r1]) (l2, [mkguard REq r2]) vars = Some (Some (k, d, dt)) ->
+  In k vars /\ In d vars /\ subsort k d = true /\
+  (dt = (l1, [mkguard REq r1]) \/ dt = (l2, [mkguard REq r2])) /\
+  (forall FI e, ev_g FI e l1 = ev_g FI e r1 -> ev_g FI e l2 = ev_g FI e r2 -> getv e k = getv e d) /\
+  (forall FI e, getv e k = getv e d -> (ev_g FI e l1 = ev_g FI e r1 <-> ev_g FI e l2 = ev_g FI e r2)).
+Proof.
+  unfold transitive_equality. cbn [first_guard_term snd fst gterm_of]. intros [= H].
+  destruct (is_var vars l1) as [v1|] eqn:A1.
+  - apply is_var_some in A1. destruct A1 as [-> I1].
+    destruct (is_var vars l2) as [v2|] eqn:A2.
+    + apply is_var_some in A2. destruct A2 as [-> I2].
+      destruct (gterm_eqb_spec r1 r2); [subst|discriminate].
+      apply te_result_spec in H. destruct H as [Hs [[-> [-> ->]]|[-> [-> ->]]]];
+        (refine (conj _ (conj _ (conj _ (conj _ (conj _ _))))); auto); intros FI e; rewrite !ev_var_to_gterm; intros; try split; intros; congruence.
+    + destruct (is_var vars r2) as [v2|] eqn:A3; [|discriminate].
+      apply is_var_some in A3. destruct A3 as [-> I2].
+      destruct (gterm_eqb_spec r1 l2); [subst|discriminate].
+      apply te_result_spec in H. destruct H as [Hs [[-> [-> ->]]|[-> [-> ->]]]];
+        (refine (conj _ (conj _ (conj _ (conj _ (conj _ _))))); auto); intros FI e; rewrite !ev_var_to_gterm; intros; try split; intros; congruence.
+  - destruct (is_var vars r1) as [v1|] eqn:A1'; [|discriminate].
+    apply is_var_some in A1'. destruct A1' as [-> I1].
+    destruct (is_var vars l2) as [v2|] eqn:A2.
+    + apply is_var_some in A2. destruct A2 as [-> I2].
+      destruct (gterm_eqb_spec l1 r2); [subst|discriminate].
+      apply te_result_spec in H. destruct H as [Hs [[-> [-> ->]]|[-> [-> ->]]]];
+        (refine (conj _ (conj _ (conj _ (conj _ (conj _ _))))); auto); intros FI e; rewrite !ev_var_to_gterm; intros; try split; intros; congruence.
+    + destruct (is_var vars r2) as [v2|] eqn:A3; [|discriminate].
+      apply is_var_some in A3. destruct A3 as [-> I2].
+      destruct (gterm_eqb_spec l1 l2); [subst|discriminate].
+      apply te_result_spec in H. destruct H as [Hs [[-> [-> ->]]|[-> [-> ->]]]];
+        (refine (conj _ (conj _ (conj _ (conj _ (conj _ _))))); auto); intros FI e; rewrite !ev_var_to_gterm; intros; try split; intros; congruence.
+Qed.
+
+(* what the two nested loops can produce *)
+Definition ste_good (vars : list var) (cts : list formula) (G : formula) : Prop :=
+  exists c1 c2 k d dt inner,
+    In (cmp_formula c1) cts /\ In (cmp_formula c2) cts /\
+    equality_comparison c1 = Some true /\ equality_comparison c2 = Some true /\
+    (cmp_eqb c1 c2 = false \/ (exists g gs, snd c1 = g :: gs /\ fst c1 = gterm_of g)) /\
+    transitive_equality c1 c2 vars = Some (Some (k, d, dt)) /\
+    substitute (conjoin (filter (fun t => negb (formula_eqb t (cmp_formula dt))) cts)) d (var_to_gterm k)
+      = Some inner /\
+    G = FQ QExists vars inner.
+
+Lemma ste_inner_body_inv F vars cts i c1 s jct2 s1 b :
+  In (cmp_formula c1) cts -> equality_comparison c1 = Some true -> In (snd jct2) cts ->
+  (fst s = F \/ ste_good vars cts (fst s)) ->
+  ste_inner_body vars cts i c1 s jct2 = Some (s1, b) ->
+  fst s1 = F \/ ste_good vars cts (fst s1).
+Proof.
+  intros H1 E1 H2 P. destruct jct2 as [j ct2]. cbn [snd] in H2. unfold ste_inner_body.
+  destruct ct2 as [[| |p ts|t2 gs2]|g|c l r|q vs g]; try (intros [= <- <-]; exact P).
+  destruct (equality_comparison (t2, gs2)) as [e2|] eqn:E2; [|discriminate].
+  match goal with |- (if ?c then _ else _) = _ -> _ => destruct c eqn:Cond end; [|intros [= <- <-]; exact P].
+  apply andb_true_iff in Cond. destruct Cond as [Cond C3]. apply andb_true_iff in Cond. destruct Cond as [C1 C2].
+  subst e2.
+  destruct (transitive_equality c1 (t2, gs2) vars) as [[[[k d] dt]|]|] eqn:TE; try discriminate;
+    [|intros [= <- <-]; exact P].
+  match goal with |- match ?x with _ => _ end = _ -> _ => destruct x as [inner|] eqn:Sub end; [|discriminate].
+  intros [= <- <-]. right. cbn [fst].
+  exists c1, (t2, gs2), k, d, dt, inner. repeat split; auto.
+  apply orb_true_iff in C3. destruct C3 as [C3|C3].
+  - left. destruct (cmp_eqb c1 (t2, gs2)); [discriminate|reflexivity].
+  - right. destruct (snd c1) as [|g gs]; [discriminate|].
+    exists g, gs. split; [reflexivity|]. destruct (gterm_eqb_spec (fst c1) (gterm_of g)); [assumption|discriminate].
+Qed.
+
+Lemma ste_outer_body_inv F vars cts s ict1 s1 b :
+  In (snd ict1) cts ->
+  (fst s = F \/ ste_good vars cts (fst s)) ->
+  ste_outer_body vars cts s ict1 = Some (s1, b) ->
+  fst s1 = F \/ ste_good vars cts (fst s1).
+Proof.
+  intros H1 P. destruct ict1 as [i ct1]. cbn [snd] in H1. unfold ste_outer_body.
+  destruct ct1 as [[| |p ts|t1 gs1]|g|c l r|q vs g]; try (intros [= <- <-]; exact P).
+  destruct (equality_comparison (t1, gs1)) as [[|]|] eqn:E1; try discriminate; [|intros [= <- <-]; exact P].
+  match goal with |- match ?x with _ => _ end = _ -> _ => destruct x as [s'|] eqn:L end; [|discriminate].
+  intros [= <- <-].
+  revert L. apply (for_break_inv (fun s => fst s = F \/ ste_good vars cts (fst s))); [|exact P].
+  intros s0 x s2 b0 Hx P0. apply (ste_inner_body_inv F vars cts i (t1, gs1)); auto.
+  destruct x as [j ct2]. cbn [snd]. eapply in_enumerate; eauto.
+Qed.
+
+Lemma ste_good_ok vars f G :
+  ste_good vars (conjoin_invert f) G ->
+  cequiv (FQ QExists vars f) G /\ fv_incl (FQ QExists vars f) G.
+Proof.
+  intros [c1 [c2 [k [d [dt [inner [In1 [In2 [E1 [E2 [Hne [TE [Sub ->]]]]]]]]]]]]].
+  destruct (equality_comparison_true _ E1) as [l1 [r1 ->]].
+  destruct (equality_comparison_true _ E2) as [l2 [r2 ->]].
+  destruct (transitive_equality_spec _ _ _ _ _ _ _ _ TE) as [Ik [Id [Hs [Hdt [Sem1 Sem2]]]]].
+  set (cts := conjoin_invert f) in *.
+  set (rest := filter (fun t => negb (formula_eqb t (cmp_formula dt))) cts) in *.
+  pose proof (subsort_sort_ok k d Hs) as Hok.
+  split.
+  - intros FI I e. cbn [csat]. rewrite !qsat_exists_char by apply csat_ext.
+    assert (Hsub : forall e', csat FI I e' inner <-> Forall (csat FI I (upd e' d (getv e' k))) rest).
+    { intros e'. rewrite (subst_sem _ _ _ _ Hok Sub). rewrite ev_var_to_gterm. apply csat_conjoin. }
+    split.
+    + (* result -> original *)
+      intros [e' [Ho H]]. apply Hsub in H. set (e'' := upd e' d (getv e' k)) in *.
+      exists e''. split.
+      * intros w Nw. unfold e''. rewrite getv_upd_other; [apply Ho, Nw|]. intros ->. apply Nw, Id.
+      * apply csat_conjoin_invert. fold cts. rewrite Forall_forall in *. intros ct Hct.
+        destruct (formula_eqb_spec ct (cmp_formula dt)) as [->|NE].
+        2: { apply H. unfold rest. apply filter_In. split; [exact Hct|].
+             destruct (formula_eqb_spec ct (cmp_formula dt)); [contradiction|reflexivity]. }
+        assert (Hkd : getv e'' k = getv e'' d).
+        { destruct (var_dec k d) as [->|NE]; [reflexivity|]. unfold e''.
+          rewrite getv_upd_same by (apply subsort_in_sort, Hs).
+          rewrite getv_upd_other by auto. reflexivity. }
+        pose proof (Sem2 FI e'' Hkd) as Eq.
+        assert (Triv : cmp_formula (l1, [mkguard REq r1]) = cmp_formula (l2, [mkguard REq r2]) ->
+                       ev_g FI e'' l1 = ev_g FI e'' r1).
+        { intros Ec. inversion Ec; subst. destruct Hne as [Hne|[g [gs [Hg1 Hg2]]]].
+          - destruct (cmp_eqb_spec (l2, [mkguard REq r2]) (l2, [mkguard REq r2])); [discriminate|congruence].
+          - cbn in Hg1, Hg2. inversion Hg1; subst. reflexivity. }
+        destruct Hdt as [-> | ->]; apply csat_eq_cmp.
+        -- destruct (formula_eqb_spec (cmp_formula (l2, [mkguard REq r2])) (cmp_formula (l1, [mkguard REq r1])))
+             as [Ec|NEc]; [apply Triv; symmetry; exact Ec|].
+           apply Eq. apply (csat_eq_cmp FI I). apply H. unfold rest. apply filter_In. split; [exact In2|].
+           destruct (formula_eqb_spec (cmp_formula (l2, [mkguard REq r2])) (cmp_formula (l1, [mkguard REq r1])));
+             [contradiction|reflexivity].
+        -- destruct (formula_eqb_spec (cmp_formula (l1, [mkguard REq r1])) (cmp_formula (l2, [mkguard REq r2])))
+             as [Ec|NEc]; [apply Eq, Triv, Ec|].
+           apply Eq. apply (csat_eq_cmp FI I). apply H. unfold rest. apply filter_In. split; [exact In1|].
+           destruct (formula_eqb_spec (cmp_formula (l1, [mkguard REq r1])) (cmp_formula (l2, [mkguard REq r2])));
+             [contradiction|reflexivity].
+    + (* original -> result *)
+      intros [e' [Ho H]]. exists e'. split; [exact Ho|]. apply Hsub.
+      apply csat_conjoin_invert in H. fold cts in H. rewrite Forall_forall in *.
+      assert (Hkd : getv e' k = getv e' d).
+      { apply (Sem1 FI e'); apply (csat_eq_cmp FI I); apply H; assumption. }
+      intros ct Hct. unfold rest in Hct. apply filter_In in Hct. destruct Hct as [Hct _].
+      rewrite Hkd. apply (csat_ext FI I ct _ _ (upd_getv e' d)). apply H, Hct.
+  - intros w Hw. apply in_fv_q in Hw. destruct Hw as [Hw Nw]. apply in_fv_q. split; [|exact Nw].
+    destruct (subst_fv _ _ _ _ _ Hok Sub Hw) as [[Hw' _]|Hw'].
+    + apply fv_conjoin in Hw'. destruct Hw' as [y [Hy Hwy]]. unfold rest in Hy. apply filter_In in Hy.
+      apply fv_conjoin_invert. exists y. split; [apply Hy|exact Hwy].
+    + rewrite gterm_vars_var_to_gterm in Hw'. destruct Hw' as [<-|[]]. contradiction.
+Qed.
+
+Lemma simplify_transitive_equality_opt_ok F G :
+  simplify_transitive_equality_opt F = Some G -> cequiv F G /\ fv_incl F G.
+Proof.
+  destruct F as [a|g|c l r|q vs f]; cbn [simplify_transitive_equality_opt];
+    try (intros [= <-]; split; [apply cequiv_refl|apply fv_incl_refl]).
+  destruct q; try (intros [= <-]; split; [apply cequiv_refl|apply fv_incl_refl]).
+  destruct f as [a|g|c l r|q' vs' g]; try (intros [= <-]; split; [apply cequiv_refl|apply fv_incl_refl]).
+  destruct c; try (intros [= <-]; split; [apply cequiv_refl|apply fv_incl_refl]).
+  set (f := FBin CAnd l r). set (F := FQ QExists vs f).
+  destruct (for_break (ste_outer_body vs (conjoin_invert f)) (F, false) (enumerate (conjoin_invert f)))
+    as [s'|] eqn:L; [|discriminate].
+  cbn [option_map]. intros [= <-].
+  assert (P : fst s' = F \/ ste_good vs (conjoin_invert f) (fst s')).
+  { revert L. apply (for_break_inv (fun s => fst s = F \/ ste_good vs (conjoin_invert f) (fst s))); [|left; reflexivity].
+    intros s0 x s2 b0 Hx P0. apply (ste_outer_body_inv F vs (conjoin_invert f)); auto.
+    destruct x as [j ct]. cbn [snd]. eapply in_enumerate; eauto. }
+  destruct P as [->|P]; [split; [apply cequiv_refl|apply fv_incl_refl]|].
+  apply ste_good_ok, P.
+Qed.
+
+Theorem simplify_transitive_equality_ok : rewrite_ok simplify_transitive_equality.
+Proof. apply total_ok. exact simplify_transitive_equality_opt_ok. Qed.
+
+End WithSubst.
